@@ -26,6 +26,13 @@
 (*                            DeleteInPlace (deviation, the pinned code):    *)
 (*                            append(s[:i], s[i+1:]...), the cells of the    *)
 (*                            SHARED array are shifted left one by one       *)
+(*                filter change of an entry: on the TABLE's route list       *)
+(*                (modRoute, ~UpdCow) GetRoute + swap inside the route, no   *)
+(*                table lock (AUpd); on a ROUTE's destination list (modDest, *)
+(*                UpdCow) copy-on-write like the others: Lock, Load, swap    *)
+(*                the filter inside the loaded destination, Store the        *)
+(*                configuration as loaded (ABegin, AWork, AStore)            *)
+(*                LoadOutsideLock (deviation): Load first, Lock later        *)
 (*   dispatchers  Load the slice once (Go range evaluates it once), then     *)
 (*                visit cell 1..len one step at a time                       *)
 (*                                                                           *)
@@ -41,6 +48,14 @@
 (*   front end of one version, routes of a later one.  One change in between *)
 (*   cannot be told from "wholly before / wholly after"; two changes (front  *)
 (*   end first, then routes) give an outcome no version of the table has.    *)
+(*                                                                           *)
+(* Overlapping admin operations (NAdmin >= 2): AdminLinearizable -- once all *)
+(* have returned the table is what applying them one after the other gives,  *)
+(* in some order that respects which had returned before which was called    *)
+(* (ghost ahist: calls / returns; TableOps.Linearizable).  At route level the *)
+(* route's own filter (modRoute) is part of the same configuration value as  *)
+(* the destination list: it is one of the fe lists here (a change of it by   *)
+(* one admin, a stale Store of the whole value by another reverts it).       *)
 (*                                                                           *)
 (* Ghost variables: vers (the abstract list after every change, by the       *)
 (* sequential semantics of TableOps), pub (every slice ever published with   *)
@@ -62,8 +77,19 @@ CONSTANTS InitN,         \* entries 1..InitN in the initial table
           FeKinds,       \* front-end operations: subset of {"bl+","bl-","rw+","rw-","agg+","agg-"}
           FeBl, FeRw, FeAgg, \* number of (inert) blacklist / rewriter / aggregator entries in the initial table
           LoadTwice,     \* TRUE = deviation: Dispatch loads the configuration a second time for the route loop
-          CoarseAdmin    \* TRUE = restriction to the schedules of level A (TableSched, the replay): dispatchers
+          CoarseAdmin,   \* TRUE = restriction to the schedules of level A (TableSched, the replay): dispatchers
                          \* take steps only between complete admin operations
+          UpdCow,        \* TRUE = the list is the destination list of a ROUTE: a filter change (modDest) is a
+                         \* copy-on-write operation too -- route.updateDestination takes the route lock, Loads the
+                         \* configuration, swaps the filter inside the destination object and Stores the
+                         \* configuration it loaded.  FALSE = the list is the route list of the table: modRoute
+                         \* is GetRoute (plain Load, no table lock) + the swap inside the route
+          LoadOutsideLock, \* deviation: the kinds of copy-on-write operation (subset of OpKinds; {} = none) that do
+                         \* conf := Load() BEFORE the mutex is taken (the lock only around build + Store): the
+                         \* configuration that is published is built from a snapshot that may be stale -- a
+                         \* change that lands between the Load and the Store is reverted.  Needs two admin
+                         \* operations that OVERLAP (NAdmin >= 2); {"updidx"} = modDest re-dialling outside the lock
+          TrackLin       \* TRUE = keep the ghost history of calls / returns that AdminLinearizable is stated on
 
 ASSUME InitCap >= InitN
 
@@ -80,10 +106,10 @@ InitFe == [bl  |-> [i \in 1..FeBl  |-> [id |-> 100 + i, f |-> 0]],
 VARIABLES heap, tbl, fe, flt, mutex, nops, nextId,
           apc, aop, aloc, anew, ak, afe,
           dpc, dsnap, dfe, didx, dvis, dcls, dfate, dname,
-          vers, fvers, pub, dcont, dlo, dhi, results
+          vers, fvers, pub, dcont, dlo, dhi, results, ahist
 vars == <<heap, tbl, fe, flt, mutex, nops, nextId, apc, aop, aloc, anew, ak, afe,
-          dpc, dsnap, dfe, didx, dvis, dcls, dfate, dname, vers, fvers, pub, dcont, dlo, dhi, results>>
-avars == <<apc, aop, aloc, anew, ak, afe>>
+          dpc, dsnap, dfe, didx, dvis, dcls, dfate, dname, vers, fvers, pub, dcont, dlo, dhi, results, ahist>>
+avars == <<apc, aop, aloc, anew, ak, afe, ahist>>
 dvars == <<dpc, dsnap, dfe, didx, dvis, dcls, dfate, dname, dcont, dlo, dhi>>
 
 Cells(sl) == [i \in 1..sl[2] |-> heap[sl[1]][i]]
@@ -105,7 +131,7 @@ Init ==
   /\ vers = << [i \in 1..InitN |-> [id |-> i, f |-> 0]] >> /\ fvers = <<InitFe>>
   /\ pub = << [sl |-> <<1, InitN, InitCap>>, cells |-> [i \in 1..InitN |-> i]] >>
   /\ dcont = [d \in Disp |-> <<>>] /\ dlo = [d \in Disp |-> 0] /\ dhi = [d \in Disp |-> 0]
-  /\ results = {}
+  /\ results = {} /\ ahist = <<>>
 
 -----------------------------------------------------------------------------
 (* admin operations *)
@@ -128,22 +154,45 @@ FeChoices ==
 
 IsUpd(o) == o.op \in {"updidx", "updkey"}
 
-\* structural operations: Lock + Load
+\* ghost: the calls and returns of the admin operations (see TableOps.Linearizable): an operation is called,
+\* later it returns (err: refused); pred = the operations that had returned when it was called
+Called(a, o, dn, e) ==
+  IF TrackLin THEN Append(ahist, [a |-> a, op |-> o, err |-> e, done |-> dn,
+                                  pred |-> {i \in 1..Len(ahist) : ahist[i].done}])
+  ELSE ahist
+OpenCall(a) == CHOOSE i \in 1..Len(ahist) : ahist[i].a = a /\ ~ahist[i].done
+Returned(a, e) == IF TrackLin THEN [ahist EXCEPT ![OpenCall(a)].done = TRUE, ![OpenCall(a)].err = e] ELSE ahist
+
+\* copy-on-write operations (structural ones; on a route also the filter change of a destination):
+\* Lock + Load, as ONE step: nobody else can Store between the two.  LoadOutsideLock (deviation): Load now,
+\* the lock later (ALock), other admins may run in between
 ABegin(a, o) ==
-  /\ apc[a] = "idle" /\ nops < MaxOps /\ ~IsUpd(o)
-  /\ (UseMutex => mutex = 0)
-  /\ mutex' = IF UseMutex THEN a ELSE mutex
+  /\ apc[a] = "idle" /\ nops < MaxOps /\ (IsUpd(o) => UpdCow)
+  /\ IF o.op \in LoadOutsideLock
+     THEN /\ apc' = [apc EXCEPT ![a] = "lock"] /\ UNCHANGED mutex
+     ELSE /\ (UseMutex => mutex = 0)
+          /\ mutex' = IF UseMutex THEN a ELSE mutex
+          /\ apc' = [apc EXCEPT ![a] = "work"]
   /\ nops' = nops + 1
   /\ nextId' = IF o.op = "add" THEN nextId + 1 ELSE nextId
   /\ flt' = IF o.op = "add" THEN [flt EXCEPT ![o.e] = o.f] ELSE flt   \* the new object is built before it is published
-  /\ apc' = [apc EXCEPT ![a] = "work"] /\ aop' = [aop EXCEPT ![a] = o]
+  /\ aop' = [aop EXCEPT ![a] = o]
   /\ aloc' = [aloc EXCEPT ![a] = tbl] /\ afe' = [afe EXCEPT ![a] = fe]      \* conf := Load(): all lists
+  /\ ahist' = Called(a, o, FALSE, FALSE)
   /\ UNCHANGED <<heap, tbl, fe, anew, ak, vers, fvers, pub, results>> /\ UNCHANGED dvars
 
-\* 1-based target cell of a delete, 0 = none (error / unknown key)
+\* LoadOutsideLock: the mutex is taken only now, with the configuration already loaded
+ALock(a) ==
+  /\ apc[a] = "lock"
+  /\ (UseMutex => mutex = 0)
+  /\ mutex' = IF UseMutex THEN a ELSE mutex
+  /\ apc' = [apc EXCEPT ![a] = "work"]
+  /\ UNCHANGED <<heap, tbl, fe, flt, nops, nextId, aop, aloc, anew, ak, afe, ahist, vers, fvers, pub, results>> /\ UNCHANGED dvars
+
+\* 1-based target cell of a delete / filter change, 0 = none (error / unknown key)
 Target(a) ==
   LET s == aloc[a] o == aop[a] c == Cells(s) IN
-  IF o.op = "delidx" THEN (IF o.i < s[2] THEN o.i + 1 ELSE 0)
+  IF o.op \in {"delidx", "updidx"} THEN (IF o.i < s[2] THEN o.i + 1 ELSE 0)
   ELSE IF \E i \in 1..s[2] : KeyOf(c[i]) = o.k
        THEN CHOOSE i \in 1..s[2] : KeyOf(c[i]) = o.k /\ \A j \in 1..(i - 1) : KeyOf(c[j]) # o.k
        ELSE 0
@@ -159,26 +208,35 @@ AWork(a) ==
                                            IF i <= n THEN arr[i] ELSE IF i = n + 1 THEN o.e ELSE 0])
                 /\ anew' = [anew EXCEPT ![a] = <<Len(heap) + 1, n + 1, GrowCap(cp)>>]
         /\ apc' = [apc EXCEPT ![a] = "store"]
-        /\ UNCHANGED <<mutex, ak, results>>
+        /\ UNCHANGED <<mutex, ak, results, flt, vers, fvers, ahist>>
      ELSE LET t == Target(a) IN
         IF t = 0 THEN    \* refused or no-op: nothing is stored
-           /\ results' = results \cup {[op |-> o, v |-> Len(vers), err |-> (o.op = "delidx")]}
+           /\ results' = results \cup {[op |-> o, v |-> Len(vers), err |-> (o.op # "delkey")]}
            /\ apc' = [apc EXCEPT ![a] = "idle"]
            /\ mutex' = IF UseMutex THEN 0 ELSE mutex
-           /\ UNCHANGED <<heap, anew, ak>>
+           /\ ahist' = Returned(a, o.op # "delkey")
+           /\ UNCHANGED <<heap, anew, ak, flt, vers, fvers>>
+        ELSE IF IsUpd(o) THEN   \* (UpdCow) the filter is swapped inside the entry object of the LOADED configuration:
+                                \* traffic and the view see it from here on; the configuration as loaded is stored next
+           /\ flt' = [flt EXCEPT ![arr[t]] = o.f]
+           /\ vers' = Append(vers, ApplyOp(vers[Len(vers)], o)) /\ fvers' = Append(fvers, fvers[Len(fvers)])
+           /\ results' = results \cup {[op |-> o, v |-> Len(vers), err |-> FALSE]}
+           /\ anew' = [anew EXCEPT ![a] = s]
+           /\ apc' = [apc EXCEPT ![a] = "store"]
+           /\ UNCHANGED <<heap, mutex, ak, ahist>>
         ELSE IF DeleteInPlace THEN
            /\ ak' = [ak EXCEPT ![a] = t] /\ apc' = [apc EXCEPT ![a] = "shift"]
-           /\ UNCHANGED <<heap, anew, mutex, results>>
+           /\ UNCHANGED <<heap, anew, mutex, results, flt, vers, fvers, ahist>>
         ELSE IF t = n THEN   \* the last entry: append(s[:n-1:n-1]) appends nothing, the array stays
            /\ anew' = [anew EXCEPT ![a] = <<s[1], n - 1, IF TruncateTail THEN cp ELSE n - 1>>]
            /\ apc' = [apc EXCEPT ![a] = "store"]
-           /\ UNCHANGED <<heap, mutex, ak, results>>
+           /\ UNCHANGED <<heap, mutex, ak, results, flt, vers, fvers, ahist>>
         ELSE LET nc == Max(2 * (t - 1), n - 1) IN   \* append beyond the capped capacity t-1: fresh array
            /\ heap' = Append(heap, [i \in 1..nc |-> IF i < t THEN arr[i] ELSE IF i < n THEN arr[i + 1] ELSE 0])
            /\ anew' = [anew EXCEPT ![a] = <<Len(heap) + 1, n - 1, nc>>]
            /\ apc' = [apc EXCEPT ![a] = "store"]
-           /\ UNCHANGED <<mutex, ak, results>>
-  /\ UNCHANGED <<tbl, fe, afe, flt, nops, nextId, aop, aloc, vers, fvers, pub>> /\ UNCHANGED dvars
+           /\ UNCHANGED <<mutex, ak, results, flt, vers, fvers, ahist>>
+  /\ UNCHANGED <<tbl, fe, afe, nops, nextId, aop, aloc, pub>> /\ UNCHANGED dvars
 
 \* memmove of append(s[:i], s[i+1:]...) inside the shared array, one cell per step
 AShift(a) ==
@@ -191,16 +249,19 @@ AShift(a) ==
      ELSE /\ anew' = [anew EXCEPT ![a] = <<s[1], n - 1, s[3]>>]
           /\ apc' = [apc EXCEPT ![a] = "store"]
           /\ UNCHANGED <<heap, ak>>
-  /\ UNCHANGED <<tbl, fe, afe, flt, mutex, nops, nextId, aop, aloc, vers, fvers, pub, results>> /\ UNCHANGED dvars
+  /\ UNCHANGED <<tbl, fe, afe, flt, mutex, nops, nextId, aop, aloc, vers, fvers, pub, results, ahist>> /\ UNCHANGED dvars
 
 AStore(a) ==
   /\ apc[a] = "store"
   /\ tbl' = anew[a] /\ fe' = afe[a]                     \* Store(conf): the whole value, front end as loaded
-  /\ vers' = Append(vers, ApplyOp(vers[Len(vers)], aop[a])) /\ fvers' = Append(fvers, fvers[Len(fvers)])
+  /\ IF IsUpd(aop[a])      \* took effect when the filter was swapped (AWork)
+     THEN UNCHANGED <<vers, fvers, results>>
+     ELSE /\ vers' = Append(vers, ApplyOp(vers[Len(vers)], aop[a])) /\ fvers' = Append(fvers, fvers[Len(fvers)])
+          /\ results' = results \cup {[op |-> aop[a], v |-> Len(vers), err |-> FALSE]}
   /\ pub' = Append(pub, [sl |-> anew[a], cells |-> Cells(anew[a])])
-  /\ results' = results \cup {[op |-> aop[a], v |-> Len(vers), err |-> FALSE]}
   /\ mutex' = IF UseMutex THEN 0 ELSE mutex
   /\ apc' = [apc EXCEPT ![a] = "idle"]
+  /\ ahist' = Returned(a, FALSE)
   /\ UNCHANGED <<heap, flt, nops, nextId, aop, aloc, anew, ak, afe>> /\ UNCHANGED dvars
 
 \* a front-end operation: Lock, Load, change one of blacklist / rewriters / aggregators, Store (the routes as loaded)
@@ -212,8 +273,10 @@ AFeBegin(a, o) ==
   /\ aop' = [aop EXCEPT ![a] = o]
   /\ IF OpErr(fe[o.l], o)
      THEN /\ results' = results \cup {[op |-> o, v |-> Len(vers), err |-> TRUE]}
+          /\ ahist' = Called(a, o, TRUE, TRUE)
           /\ UNCHANGED <<mutex, apc, aloc, afe>>
      ELSE /\ mutex' = IF UseMutex THEN a ELSE mutex
+          /\ ahist' = Called(a, o, FALSE, FALSE)
           /\ apc' = [apc EXCEPT ![a] = "festore"]
           /\ aloc' = [aloc EXCEPT ![a] = tbl]
           /\ afe' = [afe EXCEPT ![a] = [fe EXCEPT ![o.l] = ApplyOp(@, o)]]
@@ -228,11 +291,12 @@ AFeStore(a) ==
   /\ results' = results \cup {[op |-> aop[a], v |-> Len(vers), err |-> FALSE]}
   /\ mutex' = IF UseMutex THEN 0 ELSE mutex
   /\ apc' = [apc EXCEPT ![a] = "idle"]
+  /\ ahist' = Returned(a, FALSE)
   /\ UNCHANGED <<heap, flt, nops, nextId, aop, aloc, anew, ak, afe, pub>> /\ UNCHANGED dvars
 
-\* filter change: GetRoute (plain Load) + atomic swap inside the entry object
+\* filter change on the table's route list (~UpdCow): GetRoute (plain Load) + atomic swap inside the entry object
 AUpd(a, o) ==
-  /\ apc[a] = "idle" /\ nops < MaxOps /\ IsUpd(o)
+  /\ apc[a] = "idle" /\ nops < MaxOps /\ IsUpd(o) /\ ~UpdCow
   /\ nops' = nops + 1
   /\ LET c == Cells(tbl)
          t == IF o.op = "updidx" THEN (IF o.i < tbl[2] THEN o.i + 1 ELSE 0)
@@ -240,11 +304,13 @@ AUpd(a, o) ==
                    THEN CHOOSE i \in 1..tbl[2] : KeyOf(c[i]) = o.k /\ \A j \in 1..(i - 1) : KeyOf(c[j]) # o.k
                    ELSE 0 IN
      IF t = 0 THEN /\ results' = results \cup {[op |-> o, v |-> Len(vers), err |-> TRUE]}
+                   /\ ahist' = Called(a, o, TRUE, TRUE)
                    /\ UNCHANGED <<flt, vers, fvers>>
      ELSE /\ flt' = [flt EXCEPT ![c[t]] = o.f]
           /\ vers' = Append(vers, ApplyOp(vers[Len(vers)], o)) /\ fvers' = Append(fvers, fvers[Len(fvers)])
           /\ results' = results \cup {[op |-> o, v |-> Len(vers), err |-> FALSE]}
-  /\ UNCHANGED <<heap, tbl, fe, mutex, nextId, pub>> /\ UNCHANGED avars /\ UNCHANGED dvars
+          /\ ahist' = Called(a, o, TRUE, FALSE)
+  /\ UNCHANGED <<heap, tbl, fe, mutex, nextId, pub, apc, aop, aloc, anew, ak, afe>> /\ UNCHANGED dvars
 
 -----------------------------------------------------------------------------
 (* dispatchers *)
@@ -291,7 +357,7 @@ DEnd(d) ==
 Next ==
   \/ \E a \in Admin : \/ \E o \in OpChoices : ABegin(a, o) \/ AUpd(a, o)
                       \/ \E o \in FeChoices : AFeBegin(a, o)
-                      \/ AWork(a) \/ AShift(a) \/ AStore(a) \/ AFeStore(a)
+                      \/ ALock(a) \/ AWork(a) \/ AShift(a) \/ AStore(a) \/ AFeStore(a)
   \/ \E d \in Disp : (\E c \in Classes : DLoad(d, c)) \/ DFront(d) \/ DVisit(d) \/ DEnd(d)
 
 Spec == Init /\ [][Next]_vars
@@ -320,6 +386,13 @@ NoSkipNoDup ==
 
 \* the published table is, at every moment, the result of the sequence of changes applied
 ViewOK == Content(tbl) = vers[Len(vers)] /\ fe = fvers[Len(fvers)]
+
+\* overlapping admin operations: once all of them have returned, the table is the result of applying them one
+\* after the other in SOME order that respects their real-time order, each refused exactly when the sequential
+\* semantics refuse it at its place in that order (no change lost, none applied to a stale table)
+State0   == [main |-> vers[1], bl |-> fvers[1].bl, rw |-> fvers[1].rw, agg |-> fvers[1].agg]
+StateNow == [main |-> Content(tbl), bl |-> fe.bl, rw |-> fe.rw, agg |-> fe.agg]
+AdminLinearizable == (TrackLin /\ \A a \in Admin : apc[a] = "idle") => Linearizable(ahist, State0, StateNow)
 
 \* an operation is refused exactly when the sequential semantics say so
 ResultsOK == \A r \in results : r.err = OpErr(IF r.op.l = "main" THEN vers[r.v] ELSE fvers[r.v][r.op.l], r.op)
